@@ -16,6 +16,14 @@ Open Scope Z_scope.
 
 Lemma upd_val : us_per_day = 86400000000. Proof. reflexivity. Qed.
 
+Lemma f_g_year W f o : f_year W = g_year (dt_of W f o). Proof. reflexivity. Qed.
+Lemma f_g_month W f o : f_month W = g_month (dt_of W f o). Proof. reflexivity. Qed.
+Lemma f_g_day W f o : f_day W = g_day (dt_of W f o). Proof. reflexivity. Qed.
+Lemma f_g_hour W f o : f_hour W = g_hour (dt_of W f o). Proof. reflexivity. Qed.
+Lemma f_g_minute W f o : f_minute W = g_minute (dt_of W f o). Proof. reflexivity. Qed.
+Lemma f_g_second W f o : f_second W = g_second (dt_of W f o). Proof. reflexivity. Qed.
+Lemma f_g_us W f o : f_us W = g_microsecond (dt_of W f o). Proof. reflexivity. Qed.
+
 Section ZoneInst.
   Variable t : gtz.
   Hypothesis Hfx : gz_fixed t = false.
@@ -100,9 +108,9 @@ Section ZoneInst.
   Proof.
     intros Wf. own x Wf. change (zobj x) with (obj_of (zv x) tzo). rewrite (glue_set_dt_set (zv x) tzo oy om od None None None None (zv_matches x)).
     cbv zeta. cbn [zv v_W].
-    change (f_year (z_wall x)) with (g_year (zobj x)). change (f_month (z_wall x)) with (g_month (zobj x)). change (f_day (z_wall x)) with (g_day (zobj x)).
-    change (f_hour (z_wall x)) with (g_hour (zobj x)). change (f_minute (z_wall x)) with (g_minute (zobj x)).
-    change (f_second (z_wall x)) with (g_second (zobj x)). change (f_us (z_wall x)) with (g_microsecond (zobj x)).
+    rewrite (f_g_year (z_wall x) (z_fold x) tzo), (f_g_month (z_wall x) (z_fold x) tzo), (f_g_day (z_wall x) (z_fold x) tzo),
+      (f_g_hour (z_wall x) (z_fold x) tzo), (f_g_minute (z_wall x) (z_fold x) tzo), (f_g_second (z_wall x) (z_fold x) tzo), (f_g_us (z_wall x) (z_fold x) tzo).
+    fold (zobj x).
     rewrite Fy, Fm, Fd. rewrite <- Ft. apply create_sim; assumption.
   Qed.
 
@@ -119,7 +127,7 @@ Section ZoneInst.
   Proof.
     intros [-> Wf]. own x Wf. change (zobj x) with (obj_of (zv x) tzo). rewrite (sglue_start_of_day_eq (zv x) tzo (zv_matches x)).
     unfold dt_start_of_day, set_from. cbv zeta. cbn [zv v_W Z.leb Z.compare].
-    change (f_year (z_wall x)) with (g_year (zobj x)). change (f_month (z_wall x)) with (g_month (zobj x)). change (f_day (z_wall x)) with (g_day (zobj x)).
+    rewrite (f_g_year (z_wall x) (z_fold x) tzo), (f_g_month (z_wall x) (z_fold x) tzo), (f_g_day (z_wall x) (z_fold x) tzo). fold (zobj x).
     rewrite Fy, Fm, Fd. unfold z_start_of_day. change 0 with (time_us 0 0 0 0) at 5. apply create_sim; lia.
   Qed.
 
